@@ -753,6 +753,7 @@ class _GzipMessageDelegate(httputil.HTTPMessageDelegate):
         # HTTP1Connection.set_max_body_size also applies to decompressed data.
         self._connection = connection
         self._decompressed_body_size = 0
+        self._compressed_data_received = False
         self._decompressor: GzipDecompressor | None = None
 
     def headers_received(
@@ -775,6 +776,8 @@ class _GzipMessageDelegate(httputil.HTTPMessageDelegate):
     async def data_received(self, chunk: bytes) -> None:
         if self._decompressor:
             compressed_data = chunk
+            if chunk:
+                self._compressed_data_received = True
             while compressed_data:
                 decompressed = self._decompressor.decompress(
                     compressed_data, self._chunk_size
@@ -809,6 +812,12 @@ class _GzipMessageDelegate(httputil.HTTPMessageDelegate):
                 raise ValueError(
                     "decompressor.flush returned data; possible truncated input"
                 )
+            if (
+                self._compressed_data_received
+                and not self._decompressor.decompressobj.eof
+            ):
+                # flush() does not complain about a stream that simply stops.
+                raise httputil.HTTPInputError("truncated gzip body")
         return self._delegate.finish()
 
     def on_connection_close(self) -> None:
